@@ -108,7 +108,7 @@ def gen_case(rng, family='any'):
             alpha = {'invvol': n}
             lo = True
         if rng.random() < 0.4:
-            dates = [[a, (start - 86400 if rng.random() < 0.5 else (day_of(d0) + rng.randrange(1, max(2, nd))) * 86400 + CLOSE)] for a in assets]
+            dates = [[a, (start - 86400 if rng.random() < 0.4 else (day_of(d0) + rng.randrange(0, max(1, nd))) * 86400 + rng.choice([CLOSE, CLOSE, OPEN + 60, 40000]))] for a in assets]
             uni = {'dynamic': dates}
     market = make_market(rng, syms, d0 - dtm.timedelta(days=10), nd + 25, late=late, gaps=gaps, missing=missing)
     burn = None
